@@ -36,6 +36,8 @@ impl Cnf {
 //%% extract src/repr/unit_prop.rs :: - :: type LitIdx
 //%% end
 
+/// m assigns, besides what m0 assigns, only variables below nv
+pub open spec fn ranged(m: PartialModel, m0: PartialModel, nv: int) -> bool { forall|x: VarLabel| (#[trigger] m.val(x)) is Some ==> m0.val(x) is Some || x.0 < nv }
 /// what `decide` promises about its result (soundness; nothing about completeness of the propagation)
 pub open spec fn decide_sound(cs: Seq<Vec<Literal>>, m0: PartialModel, l: Literal, r: UnitPropResult) -> bool {
     match r {
@@ -207,6 +209,7 @@ impl UnitPropagate {
         ensures
             r is None ==> unsat(cnf.clauses@),
             r matches Some((up, m)) ==> up.inv() && up.cnf == cnf && m.wf() && implied_by(cnf.clauses@, m),
+            r matches Some((up, m)) ==> forall|x: VarLabel| (#[trigger] m.val(x)) is Some ==> x.0 < cnf.num_vars,
             // (necessary parts of "no clause is left falsified or with exactly one unassigned literal") there is no empty clause, and
             // the literal of every unit clause is assigned
             r is Some ==> forall|i: int| 0 <= i < cnf.clauses@.len() ==> (#[trigger] cnf.clauses@[i])@.len() >= 1,
@@ -241,6 +244,7 @@ impl UnitPropagate {
 //%% @loop 3 /^for i__r in it: implied\.iter\(\)$/
             invariant
                 cur.inv(), cur.cnf == cnf, cur_state.wf(), implied_by(cs, cur_state),
+                forall|x: VarLabel| (#[trigger] cur_state.val(x)) is Some ==> x.0 < cnf.num_vars,
                 forall|k: int| 0 <= k < implied@.len() ==> unit_lit_ok(cs, #[trigger] implied@[k]) && implied@[k].lbl.0 < cnf.num_vars,
                 forall|i: int| 0 <= i < cs.len() && (#[trigger] cs[i])@.len() == 1 ==> implied@.contains(cs[i]@[0]),
                 forall|k: int| 0 <= k < it.index@ ==> cur_state.val((#[trigger] implied@[k]).lbl) == Some(implied@[k].pol),
@@ -296,6 +300,7 @@ impl UnitPropagate {
         ensures
             final(self).inv(), final(self).cnf == old(self).cnf,
             decide_sound(old(self).cnf.clauses@, cur_state, new_assignment, r),
+            r matches UnitPropResult::PartialSAT(m) ==> ranged(m, cur_state, old(self).cnf.num_vars as int),
             // two-watched-literal scheme: the structural invariant is kept; lists of literals on assigned variables are not
             // touched; every clause watched by a literal that this call makes false is satisfied by the returned model
             old(self).winv() ==> final(self).winv() && frame_ok(*old(self), *final(self), cur_state)
@@ -314,6 +319,7 @@ impl UnitPropagate {
                 self.inv(), self.cnf == old(self).cnf, cs == self.cnf.clauses@,
                 cur_state.wf(), extends(cur_state, m0), cur_state.val(new_assignment.lbl) == Some(new_assignment.pol),
                 entailed(cs, m0, new_assignment, cur_state),
+                ranged(cur_state, m0, self.cnf.num_vars as int),
                 var_idx == new_assignment.lbl.0, var_idx < self.cnf.num_vars,
                 u0.winv() ==> prog(u0, *self, m0, cur_state, nl, watcher_idx as int),
 //%% @loopbody 1
